@@ -38,7 +38,7 @@ HEAP = os.environ.get("VERIF_TLC_HEAP", "8g")
 
 # ---------------------------------------------------------------- gamma: abstract -> real
 PYTYPE = {"int": "int", "str": "str", "bool": "bool", "listint": "List[int]", "enum": "Color",
-          "dictint": "Dict[str, int]", "tupis": "Tuple[int, str]",
+          "dictint": "Dict[str, int]", "tupis": "Tuple[int, str]", "unionis": "Union[int, str]",
           "opt_int": "Optional[int]", "opt_str": "Optional[str]", "opt_bool": "Optional[bool]",
           "opt_listint": "Optional[List[int]]", "opt_enum": "Optional[Color]",
           "opt_dictint": "Optional[Dict[str, int]]", "opt_tupis": "Optional[Tuple[int, str]]"}
@@ -93,7 +93,7 @@ def body_text(logname: str, params, ret: bool, indent: str) -> str:
 
 
 def module_source(leaves) -> str:
-    src = ["from enum import Enum", "from typing import Dict, List, Optional, Tuple", "", "LOG = []", "", "",
+    src = ["from enum import Enum", "from typing import Dict, List, Optional, Tuple, Union", "", "LOG = []", "", "",
            "class Color(Enum):", "    A = 1", "    B = 2", "", ""]
     seen = set()
     for lf in leaves:
@@ -340,7 +340,7 @@ def run_isolated(case, flavour, scratch):
 
 
 # ---------------------------------------------------------------- random cases beyond TLC's bounds
-TYPES = ["int", "str", "bool", "opt_int", "listint", "enum", "int", "str", "opt_listint", "opt_dictint", "opt_tupis", "dictint", "tupis"]
+TYPES = ["int", "str", "bool", "opt_int", "listint", "enum", "int", "str", "opt_listint", "opt_dictint", "opt_tupis", "dictint", "tupis", "unionis"]
 
 
 def rnd_value(rnd, t, src, which=None):
@@ -351,6 +351,10 @@ def rnd_value(rnd, t, src, which=None):
         return {"k": "dict", "d": ({} if rnd.random() < 0.3 else {rnd.choice(["k", "q"]): rnd.randint(0, 9)})}
     if t == "tupis":
         return {"k": "tup", "ti": rnd.randint(0, 9), "ts": rnd.choice(["y", "z"])}
+    if t == "unionis":
+        if src == "argv":
+            return rnd.choice([{"k": "str", "s": rnd.choice(["ab", "cd"])}, {"k": "int", "i": rnd.randint(0, 50)}, {"k": "bool", "b": True}])
+        return rnd.choice([{"k": "str", "s": rnd.choice(["ab", "7", "40"])}, {"k": "int", "i": rnd.randint(0, 50)}])
     if t == "int":
         return {"k": "int", "i": [3, -2, 40, 0][w % 4] if w < 3 else rnd.randint(-99, 999)}
     if t == "str":
@@ -374,6 +378,8 @@ def rnd_wrong(rnd, t, src):
         t = t[4:]
     if t in ("dictint", "tupis"):
         return {"k": "int", "i": 3}
+    if t == "unionis":
+        return {"k": "bool", "b": True}
     return {"int": {"k": "str", "s": "ab"}, "str": ({"k": "bool", "b": True} if src == "argv" else {"k": "int", "i": 12}),
             "bool": {"k": "int", "i": 1}, "opt_int": {"k": "bool", "b": True}, "listint": {"k": "int", "i": 3},
             "enum": {"k": "str", "s": "Z"}}[t]
@@ -394,12 +400,14 @@ def rnd_default(rnd, t):
         return rnd.choice([{"k": "enum", "e": "B"}, {"k": "enum", "e": "A"}])
     if t.startswith("opt_"):
         return rnd.choice([{"k": "null"}, rnd_default(rnd, t[4:])])
+    if t == "unionis":
+        return rnd.choice([{"k": "str", "s": "ab"}, {"k": "int", "i": 3}, {"k": "str", "s": "5"}])
     if t == "dictint":
         return rnd.choice([{"k": "dict", "d": {"a": 1}}, {"k": "dict", "d": {}}, {"k": "null"}])
     return rnd.choice([{"k": "tup", "ti": 1, "ts": "x"}, {"k": "null"}])
 
 
-PNAMES = ["a", "b", "c", "d", "e", "f", "x1", "flag", "n_2", "val", "p", "co"]
+PNAMES = ["a", "b", "c", "d", "e", "f", "x1", "flag", "n_2", "val", "p"]
 
 
 def rnd_sig(rnd, maxn=6, allow_empty=True):
@@ -433,10 +441,13 @@ def _not_empty(v):
 def rnd_level_tokens(rnd, ps, aspos, p_bad=0.06):
     """tokens giving a random subset of the parameters of one level, in random ways"""
     early, late, words, opts = {}, {}, [], []
+    no_cfg = any(p["n"] == "config" for p in ps)      # a level with a parameter called config has no config-file option
     for p in ps:
         req = is_required(p) and aspos
         mode = rnd.choices(["absent", "arg", "cfg", "cfg_arg", "arg_cfg", "bad_arg", "bad_cfg", "null"],
                            [2 if not req else 0.4, 6, 3, 1.5, 1.5, p_bad * 10, p_bad * 10, 0.5])[0]
+        if no_cfg and mode in ("cfg", "cfg_arg", "arg_cfg", "bad_cfg"):
+            mode = "arg"
         if mode == "absent":
             continue
         hidden = p["n"].startswith("_") and not is_required(p)
@@ -479,7 +490,7 @@ def full_map(rnd, leaves, lvl, sel, expl):
         out = settings(leaf["c"]["params"])
         if leaf["c"]["k"] == "cls":
             for m in leaf["c"]["methods"]:
-                sec = settings(m["params"])
+                sec = settings(m["params"]) if m["name"] != "config" and all(p["n"] != "config" for p in m["params"]) else {}
                 subs.append(m["name"])
                 if sec:
                     out[m["name"]] = {"k": "map", "m": sec}
@@ -490,7 +501,7 @@ def full_map(rnd, leaves, lvl, sel, expl):
                 if lf["path"][:len(lvl)] == lvl and len(lf["path"]) > len(lvl) and lf["path"][len(lvl)] not in subs:
                     subs.append(lf["path"][len(lvl)])
             for name in subs:
-                sec = full_map(rnd, leaves, lvl + [name], sel, expl)
+                sec = full_map(rnd, leaves, lvl + [name], sel, expl) if name != "config" else {}    # "config" is the option's own dest
                 if sec:
                     out[name] = {"k": "map", "m": sec}
     if expl and subs and len(sel) > len(lvl) and sel[:len(lvl)] == lvl:
@@ -501,16 +512,21 @@ def full_map(rnd, leaves, lvl, sel, expl):
 def rnd_case(rnd, idx):
     aspos = rnd.random() < 0.85
     kind = rnd.choices(["fn", "cls", "list", "dict"], [4, 3, 2, 3])[0]
-    fnames = ["f", "g", "h", "run", "fit"]
+    fnames = ["f", "g", "h", "run", "fit"] + (["config"] if rnd.random() < 0.08 else [])
     cnames = ["K", "Tool"]
 
     def mk_fn(name, maxn=6):
         return {"k": "fn", "name": name, "params": rnd_sig(rnd, maxn), "methods": []}
 
     def mk_cls(name):
-        mnames = sorted(rnd.sample(["m1", "m2", "go", "apply"], rnd.randint(1, 3)))
+        mnames = sorted(rnd.sample(["m1", "m2", "go", "apply"] + (["config"] if rnd.random() < 0.08 else []), rnd.randint(1, 3)))
         init = [p for p in rnd_sig(rnd, 4) if p["n"] not in mnames]
-        return {"k": "cls", "name": name, "params": init, "methods": [{"name": m, "params": rnd_sig(rnd, 4)} for m in mnames]}
+        meths = [{"name": m, "params": rnd_sig(rnd, 4)} for m in mnames]
+        if rnd.random() < 0.06:       # a METHOD parameter called config (recorded deviation)
+            m = rnd.choice(meths)
+            if m["params"] and all(p["n"] != "config" for p in m["params"]):
+                m["params"][-1] = dict(m["params"][-1], n="config")
+        return {"k": "cls", "name": name, "params": init, "methods": meths}
 
     leaves = []
     if kind == "fn":
@@ -551,11 +567,13 @@ def rnd_case(rnd, idx):
                 toks.append({"k": "pos", "v": {"k": "str", "s": m["name"]}})
                 toks += rnd_level_tokens(rnd, m["params"], aspos)
         # implicit form: everything through one root config (only when nothing is given in another way)
-        if rnd.random() < 0.15:
+        if rnd.random() < 0.15 and "config" not in lf["path"]:
             sect = {p["n"]: rnd_value(rnd, p["t"], "cfg") for p in c["params"] if rnd.random() < 0.8 and p["n"] != "_h"}
             if c["k"] == "cls":
                 m = rnd.choice(c["methods"])
                 ms = {p["n"]: rnd_value(rnd, p["t"], "cfg") for p in m["params"] if rnd.random() < 0.8 and p["n"] != "_h"}
+                if m["name"] == "config" or any(p["n"] == "config" for p in m["params"]):
+                    ms = {}
                 if ms:
                     sect[m["name"]] = {"k": "map", "m": ms}
             if sect and (c["k"] == "fn" or any(isinstance(v, dict) and v.get("k") == "map" for v in sect.values())):
@@ -563,6 +581,23 @@ def rnd_case(rnd, idx):
                 for name in reversed(lf["path"]):
                     m2 = {name: {"k": "map", "m": m2}}
                 toks = [{"k": "cfg", "m": m2}]
+    # --config with sections for ALL siblings (no "subcommand" key) after k words of the path; the words name the component;
+    # options for the callable at the end (bindings = its config section overlaid by the options)
+    if rnd.random() < 0.15 and (lf["path"] or lf["c"]["k"] == "cls"):
+        meth = rnd.choice(lf["c"]["methods"]) if lf["c"]["k"] == "cls" else None
+        sel = list(lf["path"]) + ([meth["name"]] if meth else [])
+        k = rnd.randint(0, len(lf["path"]))
+        m = full_map(rnd, leaves, list(lf["path"][:k]), sel, False)
+        final = meth["params"] if meth else lf["c"]["params"]
+        if not any(p["n"] == "config" for p in final):
+            # (no option tail when the class takes words itself: the method name would be taken for a parameter and an option
+            #  like --c={} written for the method would be read by the class level as an abbreviation of --config)
+            eats_words = meth is not None and aspos and any(is_required(p) for p in lf["c"]["params"])
+            tail = [] if eats_words else [
+                {"k": "opt", "n": p["n"], "v": rnd_value(rnd, p["t"], "argv")} for p in final
+                if not (is_required(p) and aspos) and not p["n"].startswith("_") and rnd.random() < 0.4]
+            words = [{"k": "pos", "v": {"k": "str", "s": n}} for n in sel]
+            toks = words[:k] + ([{"k": "cfg", "m": m}] if m else []) + words[k:] + tail
     # the whole component configured by one --config: sections for sibling sub-commands at every level, selection inside
     if rnd.random() < 0.12 and (lf["path"] or lf["c"]["k"] == "cls"):
         sel = list(lf["path"]) + ([rnd.choice(lf["c"]["methods"])["name"]] if lf["c"]["k"] == "cls" else [])
@@ -603,6 +638,7 @@ def main(argv):
         "grammar: positional-or-keyword and keyword-only parameters of types int, str, bool, Optional[int], List[int], Enum, with/without default (also default None on a non-Optional hint, and a private parameter with default); components: function, list, nested dict, class with 1-3 methods (also inside lists/dicts)",
         "config maps name settings of the sub-command that runs (settings of several sub-commands in one config: only the implicit-selection rule 'first configured choice' is modelled, as an Alg-level choice among the outcomes Ref allows)",
         "error wording and the exception class beyond ArgumentError / SystemExit(2) are not compared",
+        "argparse's acceptance of a unique abbreviation (--co for --config) is not modelled: options are only written with their full name and only for parameters that are options at that level",
         "the option strings of a parser are modelled as in this environment (shtab installed: --print_shtab exists, so --p is a prefix of two options)",
     ]
     scratch = str(common.scratch("c12"))
@@ -633,7 +669,13 @@ def main(argv):
         rep.extra["mc_outcome_stage_counts"] = dict(sorted(stages.items()))
 
         # ---- REPLAY of the emitted cases (thorough: all of them as well; they are cheap)
+        # cases whose --config carries sections for siblings and is followed by words are replayed twice: config as a string and as a file
+        twice = [dict(c, id=c["id"] + ["file"]) for c in cases if c["id"][0] in ("K", "T") and c["id"][-1] == 8]
+        cases = cases + twice
         flav = [flavour_of(i, common.seed()) for i in range(len(cases))]
+        for i, c in enumerate(cases):
+            if c["id"][0] in ("K", "T") and len(c["id"]) > 1 and 8 in c["id"][-2:]:
+                flav[i] = (flav[i] | 2) if c["id"][-1] == "file" else (flav[i] & ~2)
         res = run_all(cases, flav, scratch)
         to_validate = []   # (case, obs, py, err, origin, flavour)
         n_equal = 0
@@ -701,6 +743,15 @@ def main(argv):
                 continue
             info = {"case": case, "observed": obs, "error_text": err, "failed_clauses": sorted(clauses), "origin": origin, "python": py,
                     "flavour": fl}
+            if "ref-dev-subconfig-as-alg" in clauses:
+                rep.violation("sub-named-config:crash", "a component / method called config cannot be selected: AttributeError", info)
+                continue
+            if "ref-dev-cfgparam-as-alg" in clauses:
+                rep.violation("method-parameter-named-config:dropped", "the value of a method parameter called config is dropped by _run_component", info)
+                continue
+            if "ref-dev-uniondefault-as-alg" in clauses:
+                rep.violation("union-default-digits:int", "the signature default '5' of a Union[int, str] parameter reaches the callee as 5", info)
+                continue
             if "ref-dev-abbrev-as-alg" in clauses:
                 rep.violation("abbrev-ambiguity:sub-option-prefix-of-parent-options", "an option of a sub-command is rejected as ambiguous by an enclosing parser", info)
                 continue
